@@ -1,6 +1,8 @@
 (* C14: run the reader machine model on one case line.
    input  = M|BUFHEX|op op op ...      (M = d (debug arithmetic) | r (release))
-   output = res;res;...   with res = ok:v,v@off | err:E@off | panic@off | oob@off *)
+   output = res;res;...   with res = R@rem@curbase@scpbase@scplen
+            R = ok:v,v | err:E | panic | oob | incons:what (harness only)
+            rem/curbase = cur.scope().data().len() / .base(), scpbase/scplen = scp.base() / scp.data().len() *)
 open Model
 open Zconv
 open Verdict
@@ -11,64 +13,186 @@ let prim_of_string = function
   | s -> failwith ("prim " ^ s)
 
 let ty_of_string s = List.map prim_of_string (split_on ',' s)
+(* the record type of a dependent array: "-" is the empty record (size 0) *)
+let dty_of_string s = if s = "-" || s = "" then [] else ty_of_string s
 
-let op_of_string (s : string) : op =
+let cowop_of (l : string list) : cowop =
+  match l with
+  | ["len"] -> CLen
+  | ["get"; i] -> CGet (z_of_string i)
+  | ["ri"; i] -> CReadItem (z_of_string i)
+  | ["it"] -> CIter
+  | ["hint"; k] -> CHint (z_of_string k)
+  | ["ci"; i] -> CCheckIndex (z_of_string i)
+  | _ -> failwith "cowop"
+
+let op_of_string (s : string) : xop =
   match split_on ':' s with
-  | ["so"; o] -> OScopeOffset (z_of_string o)
-  | ["sol"; o; l] -> OScopeOffsetLength (z_of_string o, z_of_string l)
-  | ["ctxt"] -> OCtxt
-  | ["cs"] -> OCtxtScope
-  | ["ba"] -> OBytesAvailable
-  | ["r"; p] -> ORead (prim_of_string p)
-  | ["rt"; t] -> OReadTy (ty_of_string t)
-  | ["rs"; l] -> OReadScope (z_of_string l)
-  | ["sl"; l] -> OReadSlice (z_of_string l)
-  | ["nib"; n] -> OReadUntilNibble (z_of_string n)
-  | ["ra"; t; n] -> OReadArray (ty_of_string t, z_of_string n)
-  | ["ras"; t; n; st] -> OReadArrayStride (ty_of_string t, z_of_string n, z_of_string st)
-  | ["rau"; t; n] -> OReadArrayUpto (ty_of_string t, z_of_string n)
-  | ["al"] -> OArrLen
-  | ["ag"; i] -> OArrGet (z_of_string i)
-  | ["ari"; i] -> OArrReadItem (z_of_string i)
-  | ["alast"] -> OArrLast
-  | ["avec"] -> OArrToVec
-  | ["ahint"] -> OArrSizeHint
-  | ["artv"] -> OArrReadToVec
-  | ["as"; k] -> OArrSearch (z_of_string k)
+  | ["so"; o] -> XCore (OScopeOffset (z_of_string o))
+  | ["sol"; o; l] -> XCore (OScopeOffsetLength (z_of_string o, z_of_string l))
+  | ["ctxt"] -> XCore OCtxt
+  | ["cs"] -> XCore OCtxtScope
+  | ["ba"] -> XCore OBytesAvailable
+  | ["r"; p] -> XCore (ORead (prim_of_string p))
+  | ["rt"; t] -> XCore (OReadTy (ty_of_string t))
+  | ["rs"; l] -> XCore (OReadScope (z_of_string l))
+  | ["sl"; l] -> XCore (OReadSlice (z_of_string l))
+  | ["nib"; n] -> XCore (OReadUntilNibble (z_of_string n))
+  | ["ra"; t; n] -> XCore (OReadArray (ty_of_string t, z_of_string n))
+  | ["ras"; t; n; st] -> XCore (OReadArrayStride (ty_of_string t, z_of_string n, z_of_string st))
+  | ["rau"; t; n] -> XCore (OReadArrayUpto (ty_of_string t, z_of_string n))
+  | ["al"] -> XCore OArrLen
+  | ["ag"; i] -> XCore (OArrGet (z_of_string i))
+  | ["ari"; i] -> XCore (OArrReadItem (z_of_string i))
+  | ["alast"] -> XCore OArrLast
+  | ["avec"] -> XCore OArrToVec
+  | ["ahint"] -> XCore OArrSizeHint
+  | ["artv"] -> XCore OArrReadToVec
+  | ["as"; k] -> XCore (OArrSearch (z_of_string k))
+  | ["sd"] -> XScopeData
+  | ["sr"; t] -> XScopeRead (ty_of_string t)
+  | ["srd"; t] -> XScopeReadDep (dty_of_string t)
+  | ["rc"; t] -> XReadCache (ty_of_string t)
+  | ["own"] -> XOwned
+  | ["rad"; t; n] -> XReadArrayDep (dty_of_string t, z_of_string n)
+  | ["dl"] -> XDepLen
+  | ["dri"; i] -> XDepReadItem (z_of_string i)
+  | ["dit"] -> XDepIter
+  | ["drtv"] -> XDepReadToVec
+  | ["dhint"; k] -> XDepHint (z_of_string k)
+  | ["ddbg"] -> XDepDebug
+  | ["dci"; i] -> XDepCheckIndex (z_of_string i)
+  | ["adbg"] -> XArrDebug
+  | ["aci"; i] -> XArrCheckIndex (z_of_string i)
+  | ["arh"; k] -> XArrIterResHint (z_of_string k)
+  | "cb" :: r -> XCow (false, cowop_of r)
+  | "co" :: r -> XCow (true, cowop_of r)
   | _ -> failwith ("op " ^ s)
+
+let ops_of (ops : string) : string list =
+  List.filter (fun s -> s <> "") (split_on ' ' ops)
 
 let run (input : string) : string =
   match split_on '|' input with
   | [m; buf; ops] ->
     let m = if m = "d" then Debug else Release in
-    let ops = if ops = "" then [] else List.map op_of_string (split_on ' ' ops) in
-    let res = rrun m (rinit (bytes_of_hex buf)) ops in
+    let ops = List.map op_of_string (ops_of ops) in
+    let res = xrun m (xinit (bytes_of_hex buf)) ops in
     String.concat ";"
-      (List.map (fun (o, off) -> outcome_to_string zlist_to_string o ^ "@" ^ z_to_string off) res)
+      (List.map (fun (o, pos) ->
+           outcome_to_string zlist_to_string o ^ "@" ^ String.concat "@" (List.map z_to_string pos)) res)
   | _ -> failwith "c14 input"
 
-(* a case is non-trivial when at least one op succeeded with a value and at least one failed *)
-let tag (_input : string) (out : string) : string =
+(* class of a case: the result kinds it produced + which groups of operations it exercised *)
+let tag (input : string) (out : string) : string =
   let parts = split_on ';' out in
   let kinds = List.sort_uniq compare (List.map (fun r -> String.sub r 0 (min 2 (String.length r))) parts) in
-  String.concat "" kinds
+  let groups =
+    match split_on '|' input with
+    | [_; _; ops] ->
+      let g s =
+        match split_on ':' s with
+        | ("rc" :: _) -> "C" | ("sr" :: _ | "srd" :: _ | "sd" :: _ | "own" :: _) -> "S"
+        | (("rad" | "dl" | "dri" | "dit" | "drtv" | "dhint" | "ddbg" | "dci") :: _) -> "D"
+        | (("cb" | "co") :: _) -> "W"
+        | _ -> "" in
+      String.concat "" (List.sort_uniq compare (List.map g (ops_of ops)))
+    | _ -> "" in
+  String.concat "" kinds ^ (if groups = "" then "" else "+" ^ groups)
+
+(* ---- model-independent part of the judge: facts about the implementation's own outputs -------- *)
+let usize = z_of_string "18446744073709551616"
+let zmod a b = snd (z_div_eucl a b)
+
+(* res@rem@curbase@scpbase@scplen -> (res, [rem; curbase; scpbase; scplen]) *)
+let split_res (r : string) : string * string list =
+  match split_on '@' r with
+  | res :: pos -> (res, pos)
+  | [] -> ("", [])
+
+let ok_vals (res : string) : string list option =
+  if starts_with "ok:" res then
+    let b = String.sub res 3 (String.length res - 3) in
+    Some (if b = "" then [] else split_on ',' b)
+  else None
+
+(* Walks over the implementation's results alone (no model):
+   - ReadScope::base is "the offset of this scope from the start of the scope it was derived from":
+     after scp = scp.offset(n) / scp.offset_length(n, _) the base is the previous base + n (mod 2^64),
+     after scp = cur.scope() it is the cursor's position, ReadScopeOwned keeps it;
+   - an array of declared length n yields exactly n items (iter_res, read_to_vec, Debug), its size_hint
+     is n, indices >= n are refused. *)
+let independent (ops : string list) (impl : string list) : verdict =
+  let viol = ref None in
+  let set k c why = if !viol = None then viol := Some (Violation (c, Printf.sprintf "op %d: %s" k why)) in
+  let scpbase = ref "0" and curbase = ref "0" and dlen = ref (Some "0") in
+  let rec go k ops impl =
+    match ops, impl with
+    | o :: ops', r :: impl' when !viol = None ->
+      let (res, pos) = split_res r in
+      (match pos with
+       | [_; cb; sb; _] ->
+         let expect_base prev n what =
+           let want = z_to_string (zmod (z_add (z_of_string prev) (z_of_string n)) usize) in
+           if sb <> want then
+             set k "position" (Printf.sprintf "%s: base() is %s, previous base %s + offset %s = %s" what sb prev n want) in
+         (match split_on ':' o, ok_vals res with
+          | ["so"; n], Some _ -> expect_base !scpbase n "scope.offset"
+          | ["sol"; n; _], Some _ -> expect_base !scpbase n "scope.offset_length"
+          | ["cs"], Some _ -> if sb <> !curbase then
+              set k "position" (Printf.sprintf "ctxt.scope().base() is %s, the cursor was at %s" sb !curbase)
+          | ["own"], Some _ -> if sb <> !scpbase then
+              set k "position" (Printf.sprintf "ReadScopeOwned moved the scope from %s to %s" !scpbase sb)
+          | ["rad"; _; _], Some [n] -> dlen := Some n
+          | ["rad"; _; _], Some _ -> dlen := None
+          | [("dit" | "ddbg")], Some (c :: _) when c <> "-1" ->
+            (match !dlen with
+             | Some n when String.length n <= 6 && String.length c <= 9 ->
+               if int_of_string c <> min (int_of_string n) 1000 then
+                 set k "window" (Printf.sprintf "iteration over an array of declared length %s produced %s items" n c)
+             | _ -> ())
+          | ["drtv"], Some (c :: _) when c <> "-1" ->
+            (match !dlen with
+             | Some n when String.length n <= 6 && String.length c <= 9 ->
+               if int_of_string n <= 4096 && int_of_string c <> int_of_string n then
+                 set k "window" (Printf.sprintf "read_to_vec of an array of declared length %s returned %s items" n c)
+             | _ -> ())
+          | ["dl"], Some [n; _] -> (match !dlen with Some d when d <> n -> set k "window" "len() differs from the declared length" | _ -> ())
+          | _ -> ());
+         scpbase := sb; curbase := cb
+       | _ -> ());
+      go (k + 1) ops' impl'
+    | _ -> ()
+  in
+  go 0 ops impl;
+  match !viol with Some v -> v | None -> Agree
 
 (* The property, applied to the implementation's output op by op (the model is proved to meet it):
-   an out-of-bounds read or a panic is a violation outright; a value or error that differs from
-   the model's is a violation of exact decoding because the model's value is, by C14_read_exact /
-   C14_array_get / ..., the specified one. States may diverge after the first difference, so
-   judging stops there. *)
-let judge (_input : string) (impl : string) (model : string) : verdict =
+   an out-of-bounds read or a panic is a violation outright; a value, error or position that differs
+   from the model's is a violation of exact decoding / of the declared window because the model's
+   value is, by C14_read_exact / C14_array_get / C14_scope_position / C14_dep_iter / ..., the
+   specified one.  States may diverge after the first difference, so judging stops there. *)
+let judge (input : string) (impl : string) (model : string) : verdict =
   let a = split_on ';' impl and b = split_on ';' model in
+  let ops = match split_on '|' input with [_; _; ops] -> ops_of ops | _ -> [] in
   let rec go k a b =
     match a, b with
     | [], [] -> Agree
     | x :: a', y :: b' ->
+      let (xr, xp) = split_res x and (yr, yp) = split_res y in
       if starts_with "oob" x then Violation ("oob", Printf.sprintf "op %d read outside the slice (VERIF-OOB)" k)
       else if starts_with "panic" x then Violation ("panic", Printf.sprintf "op %d panicked instead of returning a value or an error" k)
+      else if starts_with "incons:" x then
+        Violation ("inconsistent", Printf.sprintf "op %d: two public views of the same array disagree (%s)" k xr)
       else if x = y then go (k + 1) a' b'
       else if starts_with "panic" y || starts_with "oob" y then
         Mismatch (Printf.sprintf "op %d: model %s, implementation %s" k y x)
+      else if xr = yr && xp <> yp then
+        Violation ("position", Printf.sprintf "op %d left the cursor/scope at %s, specified %s (rem@curbase@scpbase@scplen)"
+                     k (String.concat "@" xp) (String.concat "@" yp))
       else Violation ("inexact", Printf.sprintf "op %d returned %s, specified %s" k x y)
     | _ -> Mismatch "different number of results"
-  in go 0 a b
+  in
+  match independent ops a with
+  | Agree -> go 0 a b
+  | v -> v
